@@ -191,6 +191,33 @@ func c11Scenarios() []lncScen {
 				x.exchange(c2, sc2, 100, 40000)
 			}
 		}},
+		{"reconnect-synack-lost", lncrun.Options{PrePaired: true}, func(s *lncrun.Session, x *lncExpect) {
+			// on a reconnect (same rendezvous: the refresh path) the relay
+			// loses the client's SYNACK; the client's first data packet
+			// then makes the server's GBN handshake fail and Accept return
+			// a temporary error.  The next attempts must produce a working
+			// connection again.
+			s.Serve()
+			c, sc := x.connect(1)
+			if c == nil {
+				return
+			}
+			x.exchange(c, sc, 100)
+			c.Close("script")
+			x.check("the peer of a closed connection goes down", sc.AwaitDown(30*time.Second))
+			dropped := false
+			s.Relay.Decide = func(sid string, idx int, msg []byte) (f relay.Fate) {
+				if !dropped && s.SidName(sid) == "K.c2s" && len(msg) > 0 && msg[0] == 0x06 { // gbn.SYNACK
+					dropped = true
+					f.Drop = true
+				}
+				return
+			}
+			c2, sc2 := x.connect(2)
+			if c2 != nil {
+				x.exchange(c2, sc2, 100, 5000)
+			}
+		}},
 		{"relay-failure", lncrun.Options{PrePaired: true}, func(s *lncrun.Session, x *lncExpect) {
 			// the relay drops both streams in the middle of a connection:
 			// either the connection survives (streams re-created) or both
